@@ -63,10 +63,10 @@ def check_c19(tier, replay):
         open(cases, "w").write(json.dumps(rp["case"]) + "\n")
         ncases = 1
     else:
-        fams = ["F3", "F6"] if tier == "quick" else ["F2", "F3", "F4", "F6", "F8", "FC1"]
+        fams = ["F3", "F6"] if tier == "quick" else ["F3", "F4", "F6", "F8"]
         allcases, counts = S.gen_families(fams, tier, work)
         # a deterministic sample keeps the quick tier short: every k-th case
-        every = 6 if tier == "quick" else 2
+        every = 6 if tier == "quick" else 3
         cases = os.path.join(work, "sample.ndjson")
         ncases = 0
         with open(cases, "w") as o:
@@ -76,7 +76,7 @@ def check_c19(tier, replay):
                     ncases += 1
         cov["families"] = counts
     t0 = time.time()
-    paths, crashes = S.run_runner(C.build_runner(), "threads", cases, work, ["--schedules", scheds, "--stress-trials", "12" if tier == "quick" else "60"],
+    paths, crashes = S.run_runner(C.build_runner(), "threads", cases, work, ["--schedules", scheds, "--stress-trials", "12" if tier == "quick" else "24"],
                                   shards=min(8, max(1, ncases)), label="th", timeout=2400)
     runs = stress = perms = n = 0
     for line in open(paths["th"]):
